@@ -139,6 +139,11 @@ def gmm_pair(draw):
     corpus = rng_sensitive_corpus()
     first = draw(gmm_sensitive_chunk())
     second = corpus[draw(st.integers(0, len(corpus) - 1))] if corpus else draw(gmm_sensitive_chunk())
+    # both chunks also emit documented warnings while they run (an unknown per-call key at construction, a
+    # ceilometer exclusion that falls back): process-wide warning machinery is shared state too
+    first = {'rows': first['rows'], 'prms': dict(first['prms'], UNKNOWN_KEY_FOR_A_WARNING=1)}
+    second = {'rows': second['rows'], 'prms': dict(second['prms'], UNKNOWN_KEY_FOR_A_WARNING=1,
+                                                   EXCLUDE_FOR_BASE_HEIGHT_CALC=['a'], MAX_HITS_OKTA0=1)}
     return [first, second]
 
 
@@ -387,14 +392,20 @@ def run_job(job, ctx):
             specs = specs[::-1]
         rec = sched.Scheduler(())
         rec.run([lambda: reference(specs[0])])
-        steps = sorted(set(rec.first_seen.values()))
+        # first execution of every distinct line, plus the 2nd and 3rd execution of the lines that run only a
+        # few times (short loops such as "one mixture fit per number of components")
+        steps = set(rec.first_seen.values())
+        for loc, lst in rec.seen_steps.items():
+            if 2 <= len(lst) <= 9:
+                steps.update(lst[1:3])
+        steps = sorted(steps)
         mine = steps[job['part']::job['parts']]
         for stp in mine:
             case = {'kind': 'sched', 'chunks': specs, 'abs_switches': [[stp, 0]]}
             ctx.record(case, check(case))
         if job['part'] == 0:
-            ctx.stats.exhaustive.append(f'one pre-emption of thread A at the first execution of each of the {len(steps)} '
-                                        'distinct ampycloud source lines of its run (B runs to completion, A resumes), '
+            ctx.stats.exhaustive.append(f'one pre-emption of thread A at {len(steps)} points: the first execution of each distinct ampycloud '
+                                        'source line of its run, plus the 2nd and 3rd execution of lines run 2-9 times (B runs to completion, A resumes), '
                                         'for each drawn mixture-model pair and both role assignments')
     elif what == 'rv':
         # rendezvous: A runs up to its first execution of source line L, then B runs up to *its* first execution
